@@ -705,8 +705,71 @@ def rule_shared_node_twins(chk, prog):
                                      "answers %s for rectangle indices -1 / 0 / 3, expected %s: a cluster built on rectangle 0 is registered as an ordinary cluster" % (res, want))
 
 
+def rule_containment_members(chk, prog):
+    from ..microai.interp import default_obj
+    F = Fraction
+    r = chk.rule("CONTAINMENT-COVERS-MEMBERS", "the ClusterContainmentConstraints constructor interpreted whole on clusters with (a) no nodes of "
+                 "their own but two child clusters, (b) two nodes and one child cluster, (c) one node only: the sub-constraints it records are "
+                 "exactly, for every node AND every child cluster, in each dimension, one `above the low boundary variable` and one `below the "
+                 "high boundary variable` entry with the member's half extent (nodes) or margin (child clusters) plus the cluster's padding on "
+                 "that side -- a child cluster without such entries is free to leave (and its content to overlap what is outside) the parent", floor=3)
+    fns = [f for f in prog.fns("cola::ClusterContainmentConstraints::ClusterContainmentConstraints") if f.body]
+    if len(fns) != 1:
+        raise AnalysisBroken("ClusterContainmentConstraints constructor not found")
+    fn = fns[0]
+
+    def bx(a, b, c, d):
+        return default_obj(prog, "cola::Box", {"m_min": Vec([F(a), F(b)], "double"), "m_max": Vec([F(c), F(d)], "double")})
+
+    def cl(vid, nodes, kids, pad, mar):
+        return default_obj(prog, "cola::RectangularCluster", {"nodes": SetVal(set(nodes)), "clusters": Vec(kids, "cola::Cluster *"),
+                                                               "clusterVarId": vid, "m_padding": pad, "m_margin": mar})
+
+    def rect(w, h):
+        return default_obj(prog, "vpsc::Rectangle", {"minX": F(0), "maxX": F(w), "minY": F(0), "maxY": F(h)})
+    dims = [(10, 20), (30, 40)]
+    pad = (1, 10, 100, 1000)
+    cases = [("no own nodes, two child clusters", [], [(10, (1, 2, 3, 4)), (12, (5, 6, 7, 8))]),
+             ("two nodes and a child cluster", [0, 1], [(10, (1, 2, 3, 4))]),
+             ("one node only", [1], [])]
+    for name, nodes, kids in cases:
+        r.count()
+        kobjs = [cl(vid, [], [], bx(0, 0, 0, 0), bx(*m)) for vid, m in kids]
+        c = cl(20, nodes, kobjs, bx(*pad), bx(0, 0, 0, 0))
+        this = default_obj(prog, "cola::ClusterContainmentConstraints", {"_subConstraintInfo": Vec([], "cola::SubConstraintInfo *")})
+        it = Interp(prog, Oracle([]), max_steps=400000)
+        bad = None
+        try:
+            it.call(fn, this, None, None, arg_values=[c, 30000, Box(Vec([rect(*d) for d in dims], "vpsc::Rectangle *"))])
+        except Unsupported as e:
+            raise AnalysisBroken("ClusterContainmentConstraints constructor outside the interpreter subset: %s" % e)
+        except AssertFail as e:
+            bad = "assertion fails: %s" % e
+        if not bad:
+            got = sorted((x.f["varIndex"], x.f["dim"], F(x.f["offset"]), x.f["boundarySide"], x.f["boundaryVar"]) for x in this.f["_subConstraintInfo"].items)
+            want = []
+            for i in nodes:
+                for d in (0, 1):
+                    want.append((i, d, F(dims[i][d]) / 2 + pad[d], 1, 20))
+                    want.append((i, d, F(dims[i][d]) / 2 + pad[2 + d], -1, 21))
+            for vid, m in kids:
+                for d in (0, 1):
+                    want.append((vid, d, F(pad[d] + m[d]), 1, 20))
+                    want.append((vid + 1, d, F(pad[2 + d] + m[2 + d]), -1, 21))
+            want.sort()
+            if got != want:
+                miss = [w for w in want if w not in got]
+                extra = [g for g in got if g not in want]
+                bad = "%d sub-constraints recorded, %d expected; missing (variable, dim, offset, side, boundary variable) %s; unexpected %s" % (
+                    len(got), len(want), [tuple(str(x) for x in m_) for m_ in miss[:3]], [tuple(str(x) for x in m_) for m_ in extra[:3]])
+            elif this.f.get("_combineSubConstraints") is not True:
+                bad = "_combineSubConstraints is not set: only one of the sub-constraints would be applied per pass"
+        (r.bad if bad else r.ok)(name, fn.where(), bad or "")
+
+
 def run(chk):
     prog = chk.load()
+    chk.guard(rule_containment_members, chk, prog)
     chk.guard(rule_pairs, chk, prog)
     chk.guard(rule_exempt, chk, prog)
     chk.guard(rule_form, chk, prog)
